@@ -1,5 +1,7 @@
 //! vcheck <ID> quick|thorough | vcheck <ID> --replay <file>
 mod c01;
+mod c02;
+mod c08;
 mod c13;
 
 use serde_json::Value;
@@ -26,6 +28,8 @@ fn main() {
     let code = vlib::par::on_big_stack(|| match id {
         "C01" => c01::run_c01(tier),
         "C07" => c01::run_c07(tier),
+        "C02" => c02::run(tier),
+        "C08" => c08::run(tier),
         "C13" => c13::run_c13(tier),
         "C14" => c13::run_c14(tier),
         _ => {
@@ -42,6 +46,8 @@ fn replay(id: &str, v: &Value) -> i32 {
     let f = |case: &Value| -> Value {
         match id {
             "C01" | "C07" => c01::replay(case),
+            "C02" => c02::replay(case),
+            "C08" => c08::replay(case),
             _ => serde_json::json!({"error": format!("no replay engine for {} / {}", id, sub)}),
         }
     };
